@@ -44,6 +44,8 @@ TRIAGE = [
     (r"^vm::compile::<Vm>::compile_(symbol_expression|define|set)$", r"Overflow\(Add\)", "n is the index of an argument of this lambda (n < argc), both far below 2^63"),
     (r"^vm::compile::<Vm>::compile_if$", r"unwrap", "the index is bc.len() taken immediately before an emit, so it is in range afterwards"),
     (r"^vm::compile::<Vm>::compile_quasiquote$", r"Overflow\(Add\)", "depth counts nested quasiquote forms of the datum being compiled (bounded by its nesting)"),
+    (r"^vm::compile::<Vm>::transform_template$", r"Overflow\(Add\)", "depth counts nested quasiquote forms of the template being expanded (bounded by its nesting)"),
+    (r"^vm::environment::find_free_symbols_in_template$", r"Overflow\(Add\)", "depth counts nested quasiquote forms of the template being scanned (bounded by its nesting)"),
     (r"^vm::environment::LexicalEnvironment::(get|put)$", r"unwrap", INV_SLOT),
     (r"^vm::environment::GlobalEnvironment::(get_slot|put_slot)$", r"unwrap", INV_SLOT),
     (r"^vm::environment::GlobalEnvironment::get_binding$", r"Overflow\(Sub\)", "len() - 1 directly after a push"),
